@@ -23,9 +23,9 @@ META = {
                   'line_is_edit (texts tokenised = lines of the edit-stack spec over the characters consumed, for NUL-free input, every delivery mechanism); '
                   'fourth_takes_rest (O1); process_delivers_all, putchar_delivers_if_drained (<= 15 outstanding), eval_executes_once_and_completes (any NUL-free '
                   'string < 65536, completes within the bound, every character consumed once in order) from any reachable state in which the console is not inside a command. '
-                  'PARTIAL: tokenize_roundtrip_partial holds for items whose quoted strings do not START with a quote character; the statement as DESIGN.md words it '
-                  '(TokenizeRoundtrip) is DISPROVED in Lean (tokenize_roundtrip_fails, witness cap "\'a" -> a") and recorded as known finding D10; '
-                  'unquoted_simple_split_partial covers <= 4 blank-separated words without trailing blanks (the general UnquotedSimpleSplit is stated, not proved; '
+                  'tokenize_roundtrip at the full strength DESIGN.md words it (quoted strings may start with the other quote character; holds since fix 15aaa9d of D11 - '
+                  'the old loop is kept as tokStepOld with the kernel-checked witness d11_old_tokenizer_mangles_nested_quote: cap "\'a" gave a"). '
+                  'PARTIAL: unquoted_simple_split_partial covers <= 4 blank-separated words without trailing blanks (the general UnquotedSimpleSplit is stated, not proved; '
                   'such lines are covered by fourth_takes_rest + sampling).',
     'level_note': 'Trusted: Lean kernel (standard axioms only; no bv_decide); the hand model of console.c, validated on every run against the real code '
                   '(harness #includes console.c, ASan + -fsanitize=bounds, canaries around an exactly-sized console_t, real fibre.c/list.c/messageq.c/ringbuf.c); '
@@ -35,11 +35,11 @@ META = {
                   'waits" (C01); the sorted order of the table is checked by the correspondence run and the oracle, not by a theorem; output text is compared exactly with '
                   'the model but is not part of any theorem. Sampling only (no theorem): equality of the three delivery mechanisms on overflowing bursts (> 15 outstanding), '
                   'trailing blanks / more than four words in unquoted lines.',
-    'design_ref': '§6 C15, §5 D7 D8 O1; new finding D10',
+    'design_ref': '§6 C15, §5 D7 D8 D11 O1',
 }
 REQUIRED = ['Librfn.C15.' + t for t in (
     'layout_ok', 'buffer_safe', 'tokenizer_writes_inside', 'args_wellformed', 'dispatch_exact', 'register_full_clean',
-    'line_is_edit', 'completed_line_is_edit', 'fourth_takes_rest', 'tokenize_roundtrip_partial', 'tokenize_roundtrip_fails',
+    'line_is_edit', 'completed_line_is_edit', 'fourth_takes_rest', 'tokenize_roundtrip', 'd11_old_tokenizer_mangles_nested_quote',
     'unquoted_simple_split_partial', 'process_delivers_all', 'putchar_delivers_if_drained', 'eval_executes_once_and_completes')]
 
 R = vlib.REPO
@@ -154,7 +154,6 @@ class Spec:
         self.next_id = 0
         self.pending = []
         self.cur = []
-        self.known = []            # known-finding classes met
 
     def deliver_all(self):
         """returns the list of completed lines, in order"""
@@ -220,10 +219,7 @@ def check_cap(L, cap, table):
     if dom is not None:
         items, quoted = dom
         if argc != len(items) or toks[:argc] != items:
-            cls = None
-            if any(q and it[0] in QU for it, q in zip(items, quoted)):
-                cls = 'quoted-argument-starting-with-the-other-quote'
-            return (f'round trip: items {items} tokens {toks[:argc]}', cls)
+            return (f'round trip: items {items} tokens {toks[:argc]}', None)
     if not any(c in QU for c in L) and L and L[0] not in BL:
         words, starts, i = [], [], 0
         while i < n:
@@ -239,19 +235,14 @@ def check_cap(L, cap, table):
     return None
 
 
-def spec_check(h, groups, cap=32, known=()):
+def spec_check(h, groups, cap=32):
     """h: op lines (without the reset prefix); groups: implementation output grouped per op.
-    Returns a list of (op index, reason, class or None): at most one entry without a class (checking stops there);
-    failures of a class listed in `known` (known findings) are collected and checking continues."""
-    sp = Spec(cap)
-    found = []
-    r = _spec_check(sp, h, groups, known, found)
-    if r:
-        found.append(r)
-    return found
+    Returns [] or [(op index, reason, None)] (checking stops at the first failure)."""
+    r = _spec_check(Spec(cap), h, groups)
+    return [r] if r else []
 
 
-def _spec_check(sp, h, groups, known, found):
+def _spec_check(sp, h, groups):
     if len(groups) < len(h):
         return (len(groups), 'implementation output ends early: ' + (groups[-1][-1] if groups and groups[-1] else ''), None)
     for k, (l, g) in enumerate(zip(h, groups)):
@@ -302,9 +293,7 @@ def _spec_check(sp, h, groups, known, found):
                 return (k, f'{len(exp_caps)} registered commands should have run ({exp_caps!r}), {len(caps)} did', None)
             for L, c in zip(exp_caps, caps):
                 bad = check_cap(L, c, sp.table)
-                if bad and bad[1] in known:
-                    found.append((k, bad[0] + f' (line {L!r}: {c})', bad[1]))
-                elif bad:
+                if bad:
                     return (k, bad[0] + f' (line {L!r}: {c})', bad[1])
             out = bytes.fromhex(rest[0][4:]).decode('latin-1')
             if not any(first_token(L) in BUILTIN for L in lines):
@@ -383,23 +372,23 @@ def run_both(ctx, exe, hs, timeout=None):
     return impl, model
 
 
-def judge(h, io, mo, cap, known=()):
-    """list of ('spec'|'model', op index, reason, class)"""
-    out = [('spec',) + b for b in spec_check(h, group_ops(h, io), cap, known)]
+def judge(h, io, mo, cap):
+    """list of ('spec'|'model', op index, reason, None)"""
+    out = [('spec',) + b for b in spec_check(h, group_ops(h, io), cap)]
     if io != mo:
         k = vlib.diff_streams(io, mo)
         out.append(('model', k, f'implementation {io[k] if k < len(io) else "<end>"!r} model {mo[k] if k < len(mo) else "<end>"!r}', None))
     return out
 
 
-def shrink(ctx, exe, h, kind, cls, cap, known=(), budget_s=45):
+def shrink(ctx, exe, h, kind, cls, cap, budget_s=45):
     import time
     deadline = time.time() + budget_s
     def fails(c):
         if not c or not valid(c) or time.time() > deadline:      # out of time: keep what we have
             return False
         im, mm = run_both(ctx, exe, [c])
-        return any(j[0] == kind and j[3] == cls for j in judge(c, im[0][1:], mm[0][1:], cap, known))
+        return any(j[0] == kind and j[3] == cls for j in judge(c, im[0][1:], mm[0][1:], cap))
     h = vlib.ddmin(h, fails, 150) if len(h) > 1 else h
     for rnd in range(2):
         for i in range(len(h)):
@@ -421,8 +410,6 @@ def correspond(ctx, exe, hs, cap, label):
     """returns number of histories on which implementation, model and specification agree"""
     if not ctx.build_model():
         return 0
-    known = [k[6:] for k, _ in ctx.known_findings() if k.startswith('class:')]
-    hits = ctx.cov.setdefault('known_finding_hits', {})
     agreed, reported, pos, restarts = 0, set(), 0, 0
     while pos < len(hs) and restarts < 4:
         batch = hs[pos:]
@@ -430,25 +417,20 @@ def correspond(ctx, exe, hs, cap, label):
         for i, h in enumerate(batch[:len(impl)]):
             io = impl[i][1:]
             mo = model[i][1:] if i < len(model) else ['!! missing']
-            js = judge(h, io, mo, cap, known)
+            js = judge(h, io, mo, cap)
             if not js:
                 agreed += 1
                 continue
-            if any(j[0] == 'spec' and j[3] not in known for j in js):
+            if any(j[0] == 'spec' for j in js):
                 js = [j for j in js if j[0] == 'spec']       # the model difference is the same failure
             for kind, k, reason, cls in js:
-                if cls in known:
-                    hits[cls] = hits.get(cls, 0) + 1
                 if (kind, cls) in reported:
                     continue
                 reported.add((kind, cls))
-                if cls in known:          # a known finding: reported, not shrunk again (its minimal witness is in corpus/)
-                    ctx.violation({'ops': ['reset'] + h, 'reason': reason}, key='class:' + cls)
-                    continue
-                hh = shrink(ctx, exe, h, kind, cls, cap, known)
+                hh = shrink(ctx, exe, h, kind, cls, cap)
                 im1, mm1 = run_both(ctx, exe, [hh])
-                j2 = [x for x in judge(hh, im1[0][1:], mm1[0][1:], cap, known) if x[0] == kind] or [(kind, k, reason, cls)]
-                key = ('class:' + cls) if cls else 'ops:' + hashlib.sha1('\n'.join(hh).encode()).hexdigest()[:16]
+                j2 = [x for x in judge(hh, im1[0][1:], mm1[0][1:], cap) if x[0] == kind] or [(kind, k, reason, cls)]
+                key = 'ops:' + hashlib.sha1('\n'.join(hh).encode()).hexdigest()[:16]
                 ctx.violation({'obligation': f'{label}: implementation vs ' + ('specification (property text)' if kind == 'spec' else 'proved model'),
                                'ops': ['reset'] + hh, 'stream': readable(hh), 'failing_op': j2[0][1], 'reason': j2[0][2],
                                'observed': [x[:400] for x in im1[0][1:][-6:]], 'model': [x[:400] for x in mm1[0][1:][-6:]],
@@ -457,7 +439,7 @@ def correspond(ctx, exe, hs, cap, label):
                     # an out-of-bounds array index was trapped by -fsanitize=bounds: show what the code does without the trap
                     exe2 = harness(ctx, bounds=False)
                     correspond(ctx, exe2, [h] + [x for x in hs[:8] if x is not h], cap, label + ' (built without -fsanitize=bounds)')
-            if len([r for r in reported if r[1] not in known]) >= 3:
+            if len(reported) >= 3:
                 return agreed
         if len(impl) >= len(batch):
             break
@@ -483,8 +465,8 @@ def gen_item(rng):
     q = rng.choice(QU)
     other = '"' if q == "'" else "'"
     s = ''.join(rng.choice('ab c\tz' + other) for _ in range(rng.range(1, 8)))
-    if rng.chance(9, 10) and s[0] in QU:
-        s = 'x' + s                      # a quoted string that starts with the other quote is the known finding D10
+    if rng.chance(1, 6):
+        s = other + s                    # a quoted string that starts with the other quote character (the D11 shape)
     return q + s + q
 
 
@@ -709,5 +691,5 @@ def replay(ctx, path):
         print('SAME (implementation = model, specification satisfied)')
         return 0
     for j in js:
-        print(f'DIFFER ({j[0]}) at op {j[1]}: {j[2]}' + (f' [class {j[3]}]' if j[3] else ''))
+        print(f'DIFFER ({j[0]}) at op {j[1]}: {j[2]}')
     return 1
